@@ -281,3 +281,28 @@ static void ok_reset__st_module_init(void) {
 void ok_reset__core_init(void) {
 	ok_reset__st_module_init();
 }
+
+/* STALE-READ: the kind flag is derived from a field this call has not refreshed yet; a compute-once shortcut keyed on
+ * what the previous selection left */
+static void st_detect(int *opt, const fb_t a);
+
+void ok_stale__flag_after_refresh(const fb_t b) {
+	ctx_t *ctx = core_get();
+	st_detect(&(ctx->eb_opt_b), b);
+	ctx->eb_is_kbltz = (ctx->eb_opt_b == RLC_ONE);
+}
+
+void bad_stale_read__flag_before_refresh(const fb_t b) {
+	ctx_t *ctx = core_get();
+	ctx->eb_is_kbltz = (ctx->eb_opt_b == RLC_ONE);
+	st_detect(&(ctx->eb_opt_b), b);
+}
+
+void bad_stale_read__compute_once(void) {
+	ctx_t *ctx = core_get();
+	if (ctx->chain_len > 0) {
+		return;
+	}
+	ctx->chain_len = 11;
+	ctx->chain[4] = (4 << 8) + 0;
+}
